@@ -51,6 +51,7 @@ type RecoverJob struct {
 	AckPath  string            `json:"ack_path"` // ack log of the follow-up
 	SnapDir  string            `json:"snap_dir"` // non-empty: image before every operation of THIS recovery (crash sequences)
 	MaxSnaps int               `json:"max_snaps"`
+	Again    int               `json:"again"` // after the first recovery: give the handle up without a commit or Close and Open again, this many times
 }
 
 type BatchJob struct {
@@ -68,6 +69,7 @@ type RecoverResult struct {
 	Panic    string         `json:"panic"`
 	Where    string         `json:"where"`
 	Ops      int            `json:"ops"`
+	Again    int            `json:"again"` // how often the recovered store was abandoned and recovered again
 }
 
 type Out struct {
@@ -232,6 +234,26 @@ func batch(path string) {
 			phase.Store("read")
 			res.Where = "read"
 			res.Reads = readAll(db, j.Workload.Keys)
+			for i := 0; i < j.Again; i++ {
+				// a process that dies right after a completed recovery, before any commit: the
+				// next Open must find the same state (only when the flusher has nothing to do,
+				// the abandoned handle stays in this process)
+				if q, _, imm := originium.VerifQueue(db); q != 0 || imm != 0 {
+					break
+				}
+				originium.VerifAbandon(db)
+				res.Where = "open_again"
+				phase.Store("open")
+				db, err = originium.Open(j.WorkDir, toConfig(j.Workload.Cfg))
+				if err != nil {
+					res.Panic = "Open after an abandoned recovery returned " + err.Error()
+					return
+				}
+				res.Again++
+				phase.Store("read")
+				res.Where = "read_again"
+				res.Reads = readAll(db, j.Workload.Keys)
+			}
 			if len(j.Workload.Txns) == 0 {
 				originium.VerifAbandon(db)
 				return
